@@ -20,6 +20,7 @@ def _run_child(pid, scn, seed, outpath, replay_overrides=None, replay_only=False
     torch.set_default_dtype(torch.float64)
     from symten.scn import Scenario, reset_all
     from symten.core import Unsupported, HarnessError
+    from pysym import NotEncodable
     mod = importlib.import_module("harness." + pid)
     fn = getattr(mod, scn["fn"])
     params = scn.get("params", {})
@@ -37,6 +38,11 @@ def _run_child(pid, scn, seed, outpath, replay_overrides=None, replay_only=False
             if not S.violations:
                 res["status"] = "inconclusive"
             res["reason"] = "Unsupported: %s" % e
+        except NotEncodable as e:
+            res = S.result()
+            if not S.violations:
+                res["status"] = "inconclusive"
+            res["reason"] = "NotEncodable: %s" % e
         except HarnessError as e:
             res = S.result()
             res["status"] = "error"
